@@ -373,6 +373,22 @@ class Interp:
                         rec['result'] = 'closed'
                     else:
                         rec['result'] = 'no-block'
+                elif op == 'raise_in_block' and call.get('caught') and len(self.stack) >= 2:
+                    # the exception leaves the INNERMOST block only and is caught in the body of the block that encloses it
+                    # (`with c.transact(): try: with c.transact(): ...; raise X  except X: pass; ...`): nothing is rolled back
+                    # (only the outermost block commits or rolls back) and the enclosing block goes on
+                    exc = BlockAbort('raise_in_block')
+                    cm = self.stack.pop()
+                    cm.__exit__(type(exc), exc, None)
+                    rec['result'] = 'raised-and-caught'
+                    depth, k = 1, j
+                    while depth > 0 and k + 1 < len(calls):
+                        k += 1
+                        if calls[k]['op'] == 'begin_block':
+                            depth += 1
+                        elif calls[k]['op'] == 'end_block':
+                            depth -= 1
+                    skip_to = k             # the rest of the inner block, its end_block included, does not run
                 elif op == 'raise_in_block':
                     exc = BlockAbortBase('raise_in_block') if call.get('base') else BlockAbort('raise_in_block')
                     # the exception propagates through every enclosing block, innermost first
@@ -812,7 +828,7 @@ def _child_setup_path():
 
 
 def kill_child(directory, calls, kill_n=None, kind='cache', settings=None, now=1000.0, shards=2, timeout=5,
-               wall_limit=60.0):
+               wall_limit=60.0, trace_open=False):
     """Crash driver.  Forks ONE child which opens `kind` on `directory` (untraced), then runs `calls` with a Tracer
     whose before-hook calls os._exit(137) when the child's event counter reaches kill_n (0-based: the kill lands
     BEFORE event number kill_n executes, i.e. after event kill_n-1).  kill_n=None: run to completion.
@@ -841,6 +857,11 @@ def kill_child(directory, calls, kill_n=None, kind='cache', settings=None, now=1
             tracer = sched.Tracer(before=before, clock=clock)
             with instr.Installed(clock), tracer:
                 clock.on_sleep = lambda dt: _time.sleep(0.001)
+                if trace_open:
+                    # the statements of opening the directory (Cache.__init__: pragmas, tables, triggers, settings) are events
+                    # too, so the kill can land inside the very first open of a directory
+                    _send(wfd, {'start': -1, 'depth': 0, 'e0': 0})
+                    tracer.enable(True)
                 obj = make_object(kind, directory, settings, timeout=timeout, shards=shards)
                 warm(obj)()
                 clock.on_sleep = None
